@@ -226,7 +226,7 @@ impl DateFilter for ds::YearRange {
     {
         let range = **self.range.start()..=**self.range.end();
 
-        let Ok(curr_year) = date.year().try_into() else {
+        let Ok(curr_year): Result<u16, _> = date.year().try_into() else {
             return Some(DATE_END.date());
         };
 
@@ -234,27 +234,33 @@ impl DateFilter for ds::YearRange {
             return None; // TODO
         }
 
-        let next_year = {
-            if *range.end() < curr_year {
+        // Computed on a wider type: `end + 1` or the next multiple of `step` may exceed `u16`
+        let start = i32::from(*range.start());
+        let end = i32::from(*range.end());
+        let step = i32::from(self.step);
+        let curr_year = i32::from(curr_year);
+
+        let next_year: i32 = {
+            if end < curr_year {
                 // 1. time exceeded the range, the state won't ever change
                 return Some(DATE_END.date());
-            } else if curr_year < *range.start() {
+            } else if curr_year < start {
                 // 2. time didn't reach the range yet
-                *range.start()
-            } else if self.step == 1 {
+                start
+            } else if step == 1 {
                 // 3. time is in the range and step is naive
-                *range.end() + 1
-            } else if (curr_year - range.start()) % self.step == 0 {
+                end + 1
+            } else if (curr_year - start) % step == 0 {
                 // 4. time matches the range with step >= 2
                 curr_year + 1
             } else {
                 // 5. time is in the range but doesn't match the step
-                let round_up = |x: u16, d: u16| d * x.div_ceil(d); // get the first multiple of `d` greater than `x`.
-                range.start() + round_up(curr_year - range.start(), self.step)
+                let round_up = |x: i32, d: i32| d * ((x + d - 1) / d); // get the first multiple of `d` greater than `x`.
+                start + round_up(curr_year - start, step)
             }
         };
 
-        Some(NaiveDate::from_ymd_opt(next_year.into(), 1, 1).unwrap_or(DATE_END.date()))
+        Some(NaiveDate::from_ymd_opt(next_year, 1, 1).unwrap_or(DATE_END.date()))
     }
 }
 
